@@ -1,3 +1,5 @@
 import SedpackModel.Hash
 import SedpackModel.Filler
 import SedpackModel.Pool
+import SedpackModel.Iter
+import SedpackModel.Pipeline
